@@ -348,6 +348,68 @@ def _match_table(nf):
     return out
 
 
+def _initial_value(body, symt, node, depth=0):
+    """What a place holds before any element store: a local is its initialiser (element stores do not re-bind it), a field of a
+    local built by a struct literal is that field of the literal; references are looked through."""
+    n0 = hir.strip(node)
+    while n0.get("k") in ("Unary", "AddrOf") and n0.get("e"):
+        n0 = hir.strip(n0["e"])
+    if depth > 6:
+        return hir.fold(symt(n0), {})
+    if n0.get("k") == "Path" and n0["to"].get("res") == "local":
+        lid = n0["to"]["id"]
+        inits = [n["init"] for n, _ in hir.walk(body) if n.get("k") == "SLet" and n["pat"].get("k") == "PBind"
+                 and n["pat"].get("id") == lid and n.get("init") is not None]
+        whole = [n for n, _ in hir.walk(body) if n.get("k") == "Assign" and hir.strip(n["l"]).get("k") == "Path"
+                 and hir.strip(n["l"])["to"].get("id") == lid]
+        if len(inits) == 1 and not whole:
+            return _initial_value(body, symt, inits[0], depth + 1)
+        return ("var", n0["to"]["name"])
+    if n0.get("k") == "Field":
+        b = _initial_value(body, symt, n0["e"], depth + 1)
+        if b[0] == "struct":
+            for nm, v in b[2]:
+                if nm == n0["name"]:
+                    return v
+        return ("field", b, n0["name"])
+    return hir.fold(symt(n0), {})
+
+
+def reader_board_fresh(ctx, F):
+    """The digit arm of the scanner skips squares without writing them, so wherever the scanner runs (Game::new, and any function
+    an import helper was expanded into) the array its piece arm stores into must be all-None when the scan starts - a new
+    `[None; 64]`, not the board of a game that already holds a position - or the digit arm must clear the squares itself."""
+    n_sc = 0
+    for p, fn in sorted(F.fns.items()):
+        if fn.get("kind") == "Closure" or not fn.get("hir"):
+            continue
+        body = fn["hir"]["body"]
+        scanners = [n for n, _ in hir.walk(body) if n.get("k") == "Match" and n.get("src") == "Normal"
+                    and ("lit", "/") in [hir.pat_key(a["pat"]) for a in n["arms"]]]
+        if not scanners:
+            continue
+        symt = hir.Sym(hir.Env(fn["hir"], F), F, through=True)
+        for sc in scanners:
+            stores = [n for n, _ in hir.walk(sc) if n.get("k") == "Assign" and hir.strip(n["l"]).get("k") == "Index"
+                      and str(n["r"].get("ty", "")).startswith("std::option::Option<chess::piece::Piece")]
+            some = [n for n in stores if symt(n["r"])[0] == "ctor"]
+            clears = [n for n in stores if symt(n["r"]) == ("variant", "std::prelude::v1::None")]
+            if not some:
+                continue
+            n_sc += 1
+            base = _initial_value(body, symt, hir.strip(some[0]["l"])["e"])
+            while base[0] in ("un", "addr", "ref") and len(base) >= 2 and isinstance(base[-1], tuple):
+                base = base[-1]
+            txt = hir.fmt(base, 80)
+            fresh = txt.startswith("repeat(v1::None")
+            ctx.check("C11.T3", "reader:skipped-squares-are-empty:%s" % p.split("::")[-1], fresh or bool(clears), fn=p, file=fn["file"],
+                      line=hir.line(some[0]),
+                      what="the FEN reader fills a board that is not empty when the scan starts and does not clear the squares a digit "
+                           "skips: pieces of the previous position survive on them (the exported FEN then differs from the imported one)",
+                      expected="a fresh [None; 64] (or `board[..] = None` in the digit arm)", found=txt)
+    ctx.floor("C11.T3", "functions that run the board scanner", n_sc, 1)
+
+
 def reader(ctx, F):
     _FACTS[0] = F
     fn = F.fn(READER)
@@ -394,6 +456,7 @@ def reader(ctx, F):
                       and hir.strip(hir.strip(n["l"])["e"]).get("to", {}).get("name") == "board"]
             ctx.check("C11.T3", "reader:piece-stored-on-board", len(stores) == 1, fn=READER, file=fn["file"], line=hir.line(arm),
                       what="the piece read must be stored on the board square", found=len(stores))
+    reader_board_fresh(ctx, F)
     # T4 side
     tbl = None
     for n, anc in hir.walk(body):
